@@ -898,6 +898,32 @@ Section Proofs.
     apply Nat.eqb_neq in Hne. rewrite Hne. simpl. auto.
   Qed.
 
+  (* a function of ANY existing module object m - in particular of an object that is no longer registered, because
+     its load failed and its path was loaded again as object id - runs in m: a global assignment inside it changes
+     m's attributes and leaves every other object (the new module of that path included) as it was.  (The same holds
+     for the closures the function creates: closure_impl gives them Vm.active_module = m, see ModLang.closure_mod.) *)
+  Theorem function_of_old_object_uses_its_own_globals st m id x v w :
+    dead st = None -> m < List.length (heap st) -> id < List.length (heap st) -> id <> m ->
+    fiber_depth (frames st) <> frames_max -> alookup (attrs_of st m) x = Some w ->
+    let st1 := fst (stepM st (ECall m)) in
+    let st2 := fst (stepM st1 (ESetGlobal x v)) in
+    active st1 = m /\ attrs_of st2 id = attrs_of st id /\ alookup (attrs_of st2 m) x = Some v.
+  Proof.
+    intros Hd Hm Hid Hne Hfm Hx st1 st2.
+    destruct (call_enters_defining_module st m Hd Hm Hfm) as (_ & Ha & _). fold st1 in Ha.
+    assert (E1 : st1 = load_frame (set_frames st (mkframe m false false :: frames st))).
+    { unfold st1, step. rewrite Hd. apply Nat.ltb_lt in Hm. rewrite Hm. unfold call_closure.
+      apply Nat.eqb_neq in Hfm. rewrite Hfm. reflexivity. }
+    assert (Hh : heap st1 = heap st) by (rewrite E1; reflexivity).
+    assert (Hd1 : dead st1 = None) by (rewrite E1; exact Hd).
+    assert (Hat : forall j, attrs_of st1 j = attrs_of st j) by (intros j; unfold attrs_of, getmod; rewrite Hh; reflexivity).
+    assert (E2 : st2 = upd_attrs st1 m (fun a => ainsert a x v)).
+    { unfold st2, step. rewrite Hd1, Ha, Hat, Hx. reflexivity. }
+    split; [exact Ha|]. rewrite E2. split.
+    - rewrite attrs_upd_attrs_other; auto.
+    - rewrite attrs_upd_attrs_same by (rewrite Hh; exact Hm). apply alookup_ainsert_same.
+  Qed.
+
   Theorem return_restores_caller_module st f0 f r :
     dead st = None -> frames st = f0 :: f :: r ->
     let st' := fst (stepM st EReturn) in frames st' = f :: r /\ active st' = f_mod f.
@@ -1323,7 +1349,7 @@ Section MechReach.
   Variable cm : list (list (list string)).
   Variable B : list name.
   Variable fm : nat.
-  Variables chk grd : bool.
+  Variables chk grd cta : bool.
   Variable core : list name.
 
   Definition reach (st : state) : Prop :=
@@ -1383,13 +1409,13 @@ Section MechReach.
   Arguments bind_alias : simpl never.
   Arguments note_main_only : simpl never.
 
-  Lemma run_task_ok : forall fuel tk x, RX x -> res_ok (run_task prog cm B fm chk grd true fuel tk x).
+  Lemma run_task_ok : forall fuel tk x, RX x -> res_ok (run_task prog cm B fm chk grd true cta fuel tk x).
   Proof.
     induction fuel as [|fuel IH]; intros tk x Hx; simpl; [exact I|].
     destruct tk as [l env|s env|env w|k f env|ts src].
     - destruct l as [|s rest]; [exact Hx|].
       pose proof (IH (TkExec1 s env) x Hx) as H.
-      destruct (run_task prog cm B fm chk grd true fuel (TkExec1 s env) x); simpl in *; auto.
+      destruct (run_task prog cm B fm chk grd true cta fuel (TkExec1 s env) x); simpl in *; auto.
     - destruct s.
       + apply get_global_ok; [assumption|]. intros x1 _ H1. exact H1.
       + apply get_global_ok; [assumption|]. intros x1 _ H1. apply get_global_ok; [assumption|]. intros x2 w H2. exact H2.
@@ -1397,7 +1423,7 @@ Section MechReach.
       + apply bind_s_ok; [apply do_step_ok; auto|]. intros x1 o H1. destruct o; simpl; auto.
         * apply bind_alias_ok; auto.
         * pose proof (IH (TkTops b (src_of_mod x1 id)) x1 H1) as Ht.
-          destruct (run_task prog cm B fm chk grd true fuel (TkTops b (src_of_mod x1 id)) x1); simpl in *; auto.
+          destruct (run_task prog cm B fm chk grd true cta fuel (TkTops b (src_of_mod x1 id)) x1); simpl in *; auto.
           apply bind_s_ok; [apply do_step_ok; auto|]. intros x3 _ H3. apply bind_alias_ok; auto.
       + apply get_global_ok; [assumption|]. intros x1 _ H1. apply resolve_ok; [assumption|]. intros x2 w H2.
         destruct w; simpl; auto. apply bind_s_ok; [apply do_step_ok; auto|]. intros x3 o H3.
@@ -1413,9 +1439,9 @@ Section MechReach.
           repeat (first [apply get_global_ok; [auto using note_ok|]; intros | exact I | assumption | apply note_ok; assumption]).
       + apply IH; auto.
       + apply bind_s_ok; [apply do_step_ok; auto|]. intros x1 _ H1.
-        match goal with |- res_ok (match run_task _ _ _ _ _ _ _ _ ?tk ?xx with _ => _ end) =>
-          assert (Hb : res_ok (run_task prog cm B fm chk grd true fuel tk xx)) by (apply IH; exact H1);
-          destruct (run_task prog cm B fm chk grd true fuel tk xx) as [env' x2|h e x2|e x2| |why]; simpl in *; auto
+        match goal with |- res_ok (match run_task _ _ _ _ _ _ _ _ _ ?tk ?xx with _ => _ end) =>
+          assert (Hb : res_ok (run_task prog cm B fm chk grd true cta fuel tk xx)) by (apply IH; exact H1);
+          destruct (run_task prog cm B fm chk grd true cta fuel tk xx) as [env' x2|h e x2|e x2| |why]; simpl in *; auto
         end.
         * apply bind_s_ok; [apply do_step_ok; auto|]. intros x3 _ H3. exact H3.
         * destruct (Nat.eqb h (nexth x)); simpl; auto.
@@ -1423,25 +1449,32 @@ Section MechReach.
           apply get_global_ok; [exact H4|]. intros x6 _ H6. apply get_global_ok; [assumption|]. intros x7 _ H7.
           apply get_global_ok; [assumption|]. intros x8 _ H8. exact H8.
       + pose proof (IH (TkExec body ([] :: env)) x Hx) as Hb.
-        destruct (run_task prog cm B fm chk grd true fuel (TkExec body ([] :: env)) x); simpl in *; auto.
+        destruct (run_task prog cm B fm chk grd true cta fuel (TkExec body ([] :: env)) x); simpl in *; auto.
+      + apply resolve_ok; [assumption|]. intros x1 w H1. destruct w; simpl; auto.
+        apply get_global_ok; [assumption|]. intros x2 u H2.
+        apply bind_s_ok; [apply do_step_ok; auto|]. intros x3 _ H3. exact H3.
+      + apply bind_s_ok; [apply do_step_ok; auto|]. intros x1 _ H1.
+        pose proof (IH (TkExec body ([] :: env)) x1 H1) as Hb.
+        destruct (run_task prog cm B fm chk grd true cta fuel (TkExec body ([] :: env)) x1); simpl in *; auto.
+        apply bind_s_ok; [apply do_step_ok; auto|]. intros x3 _ H3. exact H3.
     - destruct w; simpl; auto.
       destruct (find_fn prog f) as [body|]; simpl; auto.
       apply bind_s_ok; [apply do_step_ok; auto|]. intros x1 _ H1.
       pose proof (IH (TkExec body [[]]) x1 H1) as Hb.
-      destruct (run_task prog cm B fm chk grd true fuel (TkExec body [[]]) x1); simpl in *; auto.
+      destruct (run_task prog cm B fm chk grd true cta fuel (TkExec body [[]]) x1); simpl in *; auto.
       apply bind_s_ok; [apply do_step_ok; auto|]. intros x3 _ H3. exact H3.
     - destruct k as [|k'].
       + apply get_global_ok; [assumption|]. intros x1 w H1. apply IH; auto.
       + apply get_global_ok; [assumption|]. intros x1 _ H1.
         apply bind_s_ok; [apply do_step_ok; auto|]. intros x2 _ H2.
         pose proof (IH (TkFiber k' f env) x2 H2) as Hb.
-        destruct (run_task prog cm B fm chk grd true fuel (TkFiber k' f env) x2); simpl in *; auto.
+        destruct (run_task prog cm B fm chk grd true cta fuel (TkFiber k' f env) x2); simpl in *; auto.
         apply bind_s_ok; [apply do_step_ok; auto|]. intros x4 _ H4. exact H4.
     - destruct ts as [|t rest]; [exact Hx|].
       assert (Hr : res_ok (match t with
-                           | TStmt s => run_task prog cm B fm chk grd true fuel (TkExec1 s []) x
+                           | TStmt s => run_task prog cm B fm chk grd true cta fuel (TkExec1 s []) x
                            | TDef v n => bind_s (do_step prog cm B fm chk grd true x (EDefineGlobal (var_name v) (VNum n))) (fun x1 _ => RNormal [] x1)
-                           | TFn f _ => bind_s (do_step prog cm B fm chk grd true x (EDefineGlobal (fn_name f) (VFn (active (ms x)) (fn_key src f)))) (fun x1 _ => RNormal [] x1)
+                           | TFn f _ => bind_s (do_step prog cm B fm chk grd true x (EDefineGlobal (fn_name f) (VFn (closure_mod cta x) (fn_key src f)))) (fun x1 _ => RNormal [] x1)
                            end)).
       { destruct t.
         - apply IH; auto.
@@ -1451,20 +1484,20 @@ Section MechReach.
   Qed.
 
   Theorem mech_final_state_reachable fuel st :
-    final_state prog cm B fm chk grd true fuel core = Some st -> reach st.
+    final_state prog cm B fm chk grd true cta fuel core = Some st -> reach st.
   Proof.
     unfold final_state. intros E.
-    assert (Hts : forall ts, res_ok (exec_tops prog cm B fm chk grd true fuel ts 0 (mech_init B core))).
+    assert (Hts : forall ts, res_ok (exec_tops prog cm B fm chk grd true cta fuel ts 0 (mech_init B core))).
     { intros ts. apply run_task_ok. exists []; reflexivity. }
     destruct prog as [|[ts| |k] rest] eqn:Ep; try discriminate.
     specialize (Hts ts).
-    destruct (exec_tops (MOk ts :: rest) cm B fm chk grd true fuel ts 0 (mech_init B core)); simpl in *; inversion E; subst; auto.
+    destruct (exec_tops (MOk ts :: rest) cm B fm chk grd true cta fuel ts 0 (mech_init B core)); simpl in *; inversion E; subst; auto.
   Qed.
 
   (* e.g.: whatever program runs, whatever the fuel, no module object's body is started twice, and the active
      module is the module of the running closure *)
   Corollary program_body_runs_at_most_once fuel st :
-    final_state prog cm B fm chk grd true fuel core = Some st -> NoDup (ran st).
+    final_state prog cm B fm chk grd true cta fuel core = Some st -> NoDup (ran st).
   Proof.
     intros H. destruct (mech_final_state_reachable fuel st H) as [evs ->].
     apply body_runs_at_most_once. intros b Hb. unfold main_attrs.
@@ -1472,7 +1505,7 @@ Section MechReach.
   Qed.
 
   Corollary program_globals_isolated fuel st :
-    final_state prog cm B fm chk grd true fuel core = Some st -> dead st = None -> active st = top_mod st.
+    final_state prog cm B fm chk grd true cta fuel core = Some st -> dead st = None -> active st = top_mod st.
   Proof.
     intros H. destruct (mech_final_state_reachable fuel st H) as [evs ->].
     apply globals_isolated. intros b Hb. unfold main_attrs. apply main_attrs_have_builtins; auto.
